@@ -457,6 +457,9 @@ class _PairLoop(LoopContract):
 
 
 class _GrowLoop(LoopContract):
+    # `groups` is an abstract object whose only property (size bound of every key) is an
+    # obligation at each store
+    modifies = ("groups", "_")
     def havoc(self, vc, frame, k, seq):
         frame["positions"] = Struct("PosSet", card=_fresh_card(vc, "npos"))
         frame["contracted"] = Struct("ListSet", mem=vc.fresh("contracted", IdxSet))
